@@ -165,7 +165,7 @@ class TornWrite(Exception):
 
 class OpenFailpoint:
     """Rebinds the name `open` inside externalStateAdapter: files opened for
-    writing accept only the first `limit` bytes and then raise TornWrite."""
+    writing (any of w, a, x, + in the mode) accept only the first `limit` bytes and then raise TornWrite."""
 
     def __init__(self, limit):
         self.limit = limit
@@ -179,7 +179,7 @@ class OpenFailpoint:
 
         def fake_open(path, mode="r", *a, **k):
             f = builtins.open(path, mode, *a, **k)
-            if "w" not in mode or fp.limit is None:
+            if not any(ch in mode for ch in "wax+") or fp.limit is None:
                 return f
 
             class Torn:
